@@ -470,6 +470,113 @@ theorem pts_prefix_bytes (L : Lex) (fpp : Nat) (ctok : Tok) (pls : List (List To
         simp only [hf, List.length_take]; omega)
     simpa using this
 
+/-- BYTE level, ASCII PLY: the cut right after the LAST token of a non-final line `j` (before its line feed) —
+    the scanner still delivers line `j` complete, but lines are missing — is rejected. -/
+theorem ply_ascii_prefix_bytes_eol (L : Lex) (h : Hdr) (vls fls : List (List Tok))
+    (hclean : ∀ ts ∈ vls ++ fls, ∀ t ∈ ts, CleanTok t)
+    (hx : AsciiOk L h (vls.map mkLine) (fls.map mkLine))
+    (j : Nat) (hj : j + 1 < (vls ++ fls).length) (hne : (vls ++ fls)[j] ≠ []) :
+    readPlyAsciiBody L h (scanLines (renderLines ((vls ++ fls).take j) ++ joinSp ((vls ++ fls)[j]))) =
+      .error .short := by
+  have hc : ∀ ts ∈ (vls ++ fls).take j ++ [(vls ++ fls)[j]], ∀ t ∈ ts, CleanTok t := by
+    intro ts hts
+    rcases List.mem_append.mp hts with h1 | h1
+    · exact hclean ts (List.mem_of_mem_take h1)
+    · simp only [List.mem_singleton] at h1; subst h1; exact hclean _ (List.getElem_mem _)
+  rw [(ply_ascii_bytes_complete _ _ hc hne).2]
+  have e : (vls ++ fls).take j ++ [(vls ++ fls)[j]] = (vls ++ fls).take (j + 1) := by
+    rw [List.take_succ_eq_append_getElem (by omega)]
+  rw [e, List.map_take, List.map_append]
+  have := ply_ascii_prefix L h (vls.map mkLine) (fls.map mkLine) hx (j + 1) (by simpa using hj) none (by simp)
+  simpa using this
+
+/-- BYTE level, PTS: nothing at all, or the count line alone (with or without its line feed) while points
+    are declared → rejected -/
+theorem pts_count_line_bytes (L : Lex) (fpp : Nat) (ctok : Tok) (pls : List (List Tok)) (hc : CleanTok ctok)
+    (hx : PtsOk L fpp (mkLine [ctok]) (pls.map mkLine)) (hne : pls ≠ []) :
+    readPts L [] = .error .malformed ∧ readPts L ctok = .error .short ∧ readPts L (ctok ++ [10]) = .error .short := by
+  have hall : ∀ ts ∈ [[ctok]], ∀ x ∈ ts, CleanTok x := by
+    intro ts hts x hx'; simp only [List.mem_singleton] at hts; subst hts
+    simp only [List.mem_singleton] at hx'; subst hx'; exact hc
+  have hkey := (pts_prefix L fpp (mkLine [ctok]) (pls.map mkLine) hx).2.1 (by simpa using hne)
+  refine ⟨rfl, ?_, ?_⟩
+  · have h1 := (ply_ascii_bytes_complete [] [ctok] (by simpa using hall) (by simp)).2
+    simp only [renderLines, List.flatMap_nil, List.nil_append, joinSp, List.map_cons, List.map_nil] at h1
+    unfold readPts; rw [h1]; exact hkey
+  · have h1 := (ply_ascii_bytes_complete [] [ctok] (by simpa using hall) (by simp)).1
+    simp only [renderLines, List.nil_append, List.flatMap_cons, List.flatMap_nil, List.append_nil, joinSp,
+      List.map_cons, List.map_nil] at h1
+    unfold readPts; rw [h1]; exact hkey
+
+/-- BYTE level, PTS: cut right after the last token of point line `j` (before its line feed) while more
+    points are declared → rejected (`j = 0` included) -/
+theorem pts_prefix_bytes_eol (L : Lex) (fpp : Nat) (ctok : Tok) (pls : List (List Tok))
+    (hc : CleanTok ctok) (hclean : ∀ ts ∈ pls, ∀ t ∈ ts, CleanTok t)
+    (hx : PtsOk L fpp (mkLine [ctok]) (pls.map mkLine))
+    (j : Nat) (hj : j + 1 < pls.length) (hne : pls[j] ≠ []) :
+    ∃ e, readPts L (renderLines ([ctok] :: pls.take j) ++ joinSp pls[j]) = .error e := by
+  have hcl : ∀ ts ∈ ([ctok] :: pls.take j) ++ [pls[j]], ∀ t ∈ ts, CleanTok t := by
+    intro ts hts x hx'
+    rcases List.mem_append.mp hts with h1 | h1
+    · rcases List.mem_cons.mp h1 with rfl | h2
+      · simp only [List.mem_singleton] at hx'; subst hx'; exact hc
+      · exact hclean ts (List.mem_of_mem_take h2) x hx'
+    · simp only [List.mem_singleton] at h1; subst h1; exact hclean _ (List.getElem_mem _) x hx'
+  unfold readPts
+  rw [(ply_ascii_bytes_complete _ _ hcl hne).2]
+  have e : ([ctok] :: pls.take j) ++ [pls[j]] = [ctok] :: pls.take (j + 1) := by
+    rw [List.take_succ_eq_append_getElem (by omega)]; simp
+  rw [e]
+  have := (pts_prefix L fpp (mkLine [ctok]) (pls.map mkLine) hx).2.2.1 (j + 1) (by omega) (by simpa using hj)
+    none (by simp)
+  simpa [List.map_take] using this
+
+/-- BYTE level, PTS: a cut inside the FIRST point line after `t ≥ 1` of its tokens (with or without the
+    separating space): rejected — or, when that line is the only point declared and at least 3 tokens
+    remain, exactly the one point built from the tokens present (see `ptsPoint_restriction`; the text is
+    then itself a valid one-point PTS file with fewer fields). -/
+theorem pts_first_line_bytes (L : Lex) (fpp : Nat) (ctok : Tok) (l : List Tok) (rest : List (List Tok))
+    (hc : CleanTok ctok) (hcl : ∀ t ∈ l, CleanTok t)
+    (hx : PtsOk L fpp (mkLine [ctok]) ((l :: rest).map mkLine))
+    (t : Nat) (ht0 : 0 < t) (ht : t < fpp) (sp : Bool) :
+    (∃ e, readPts L (renderLines [[ctok]] ++ (joinSp (l.take t) ++ (if sp then [32] else []))) = .error e) ∨
+    (rest = [] ∧ 3 ≤ t ∧
+      readPts L (renderLines [[ctok]] ++ (joinSp (l.take t) ++ (if sp then [32] else []))) =
+        .ok [ptsPoint (l.take t)]) := by
+  have hlen : l.length = fpp := by
+    have := (hx.2 (mkLine l) (by simp)).1
+    simpa [mkLine] using this
+  have hct : ∀ x ∈ l.take t, CleanTok x := fun x hx' => hcl x (List.mem_of_mem_take hx')
+  obtain ⟨p10, p13⟩ := joinSp_noSpecial (l.take t) hct
+  have hp10 : (10 : UInt8) ∉ joinSp (l.take t) ++ (if sp then [32] else []) := by cases sp <;> simp [p10]
+  have hp13 : (13 : UInt8) ∉ joinSp (l.take t) ++ (if sp then [32] else []) := by cases sp <;> simp [p13]
+  have hall : ∀ ts ∈ [[ctok]], ∀ x ∈ ts, CleanTok x := by
+    intro ts hts x hx'; simp only [List.mem_singleton] at hts; subst hts
+    simp only [List.mem_singleton] at hx'; subst hx'; exact hc
+  have hne : (joinSp (l.take t) ++ (if sp then [32] else [])).isEmpty = false := by
+    have h1 := joinSp_ne_nil (l.take t) hct (by
+      intro hnil
+      have h2 : (l.take t).length = 0 := by rw [hnil]; rfl
+      rw [List.length_take] at h2; omega)
+    cases hjs : joinSp (l.take t) with
+    | nil => exact absurd hjs h1
+    | cons a b => simp
+  have hf : fields (joinSp (l.take t) ++ (if sp then [32] else [])) = l.take t := by
+    cases sp with
+    | false => simpa using fields_joinSp _ hct
+    | true => simpa using fields_joinSp_space _ hct
+  unfold readPts
+  rw [scanLines_render _ hall _ hp10 hp13]
+  simp only [hne, Bool.false_eq_true, if_false, List.map_cons, List.map_nil, List.cons_append, List.nil_append, hf]
+  have key := (pts_prefix L fpp (mkLine [ctok]) ((l :: rest).map mkLine) hx).2.2.2 (mkLine l) (by simp)
+    ⟨joinSp (l.take t) ++ (if sp then [32] else []), l.take t⟩ ⟨t, ht0, ht, by simp [mkLine]⟩
+  rcases key with ⟨e, he⟩ | ⟨h1, h2, h3⟩
+  · left; exact ⟨e, he⟩
+  · right
+    refine ⟨?_, ?_, h3⟩
+    · simpa using h1
+    · simpa [List.length_take, hlen] using (show 3 ≤ (l.take t).length from h2) |>.trans (by simp)
+
 /-! ## iteration counts: every loop consumes input
 
   Each reader is a total function whose loops are structural recursions on the input.  The counters are
@@ -528,7 +635,7 @@ theorem scanLines_length (bs : List UInt8) : (scanLines bs).length ≤ bs.length
   For the ASCII formats see `ply_ascii_prefix` (always an error) and `pts_prefix` (error, or the one
   restricted point of `ptsPoint_restriction`). -/
 
-theorem no_placeholder_stl (hdr : List UInt8) (tris : List (List UInt8)) (hh : hdr.length = 80)
+theorem no_placeholder_stl_eq (hdr : List UInt8) (tris : List (List UInt8)) (hh : hdr.length = 80)
     (ht : ∀ t ∈ tris, t.length = 50) (hn : tris.length < 2 ^ 32) (k : Nat) (m : List (List UInt8))
     (h : readStl ((stlFile hdr tris).take k) = .ok m) : m = tris := by
   by_cases hk : k < (stlFile hdr tris).length
@@ -536,13 +643,13 @@ theorem no_placeholder_stl (hdr : List UInt8) (tris : List (List UInt8)) (hh : h
   · rw [List.take_of_length_le (by omega), stl_full hdr tris hh ht hn] at h
     cases h; rfl
 
-theorem no_placeholder_splat (rs : List Rec) (k : Nat) :
+theorem no_placeholder_splat_eq (rs : List Rec) (k : Nat) :
     (readRecs ((rs.flatMap encRec).take k)).recs <+: rs := by
   by_cases hk : k ≤ (rs.flatMap encRec).length
   · rw [splat_prefix rs k hk]; exact List.take_prefix _ _
   · rw [List.take_of_length_le (by omega), readRecs_flatMap]
 
-theorem no_placeholder_spz (bs : List UInt8) (h16 : 16 ≤ bs.length)
+theorem no_placeholder_spz_eq (bs : List UInt8) (h16 : 16 ≤ bs.length)
     (hlen : bs.length = payloadLength (parseHeader (bs.take 16))) (k : Nat) (a : Arrays)
     (h : readRaw (bs.take k) = .ok a) : readRaw bs = .ok a := by
   by_cases hk : k < bs.length
@@ -550,7 +657,7 @@ theorem no_placeholder_spz (bs : List UInt8) (h16 : 16 ≤ bs.length)
     rw [he] at h; cases h
   · rwa [List.take_of_length_le (by omega)] at h
 
-theorem no_placeholder_ply_binary (L : Lex) (be : Bool) (h : Hdr) (hfmt : h.fmt = if be then .be else .le)
+theorem no_placeholder_ply_binary_eq (L : Lex) (be : Bool) (h : Hdr) (hfmt : h.fmt = if be then .be else .le)
     (x : BinFile) (hx : x.ok h) (k : Nat) (m : PlyMesh)
     (hm : readPly L h ((x.bytes be h).take k) = .ok m) : m = .bin (x.mesh be h) := by
   by_cases hk : k < (x.bytes be h).length
@@ -559,7 +666,7 @@ theorem no_placeholder_ply_binary (L : Lex) (be : Bool) (h : Hdr) (hfmt : h.fmt 
   · rw [List.take_of_length_le (by omega), ply_binary_full L be h hfmt x hx] at hm
     cases hm; rfl
 
-theorem no_placeholder_ply_ascii (L : Lex) (h : Hdr) (vs fl : List Line) (hx : AsciiOk L h vs fl)
+theorem no_placeholder_ply_ascii_eq (L : Lex) (h : Hdr) (vs fl : List Line) (hx : AsciiOk L h vs fl)
     (j : Nat) (hj : j ≤ (vs ++ fl).length) (d : Option Line)
     (hd : ∀ x, d = some x → ∃ hj' : j < (vs ++ fl).length, PartialOf x (vs ++ fl)[j]) (m : AsciiMesh)
     (hm : readPlyAsciiBody L h ((vs ++ fl).take j ++ d.toList) = .ok m) : m = asciiMesh L h vs fl := by
@@ -571,6 +678,57 @@ theorem no_placeholder_ply_ascii (L : Lex) (h : Hdr) (vs fl : List Line) (hx : A
     | none =>
       rw [hjl, List.take_length, Option.toList_none, List.append_nil, ply_ascii_full L h vs fl hx] at hm
       cases hm; rfl
+
+/-! ### … stated through `Readers.prefixOf`, the predicate the oracle `c14.holds.prefix_only` evaluates -/
+
+theorem isPrefixOf_self {β : Type} [DecidableEq β] (l : List β) : l.isPrefixOf l = true := by
+  induction l with
+  | nil => rfl
+  | cons a l ih => simp [List.isPrefixOf, ih]
+
+/-- a one-attribute summary is a (complete) prefix-restriction of itself -/
+theorem prefixOf_self_single {V P : Type} [DecidableEq V] [DecidableEq P] (mode : Mode) (n : String)
+    (vs : List V) (ps : List P) : prefixOf mode (⟨[(n, vs)], ps⟩ : Summary V P) ⟨[(n, vs)], ps⟩ = true := by
+  simp [prefixOf, List.lookup, isPrefixOf_self]
+
+def stlSummary (tris : List (List UInt8)) : Summary (List UInt8) Unit := ⟨[("triangle", tris)], []⟩
+def splatSummary (rs : List Rec) : Summary Rec Unit := ⟨[("record", rs)], []⟩
+def spzSummary (a : Arrays) : Summary (List UInt8) Unit :=
+  ⟨[("arrays", [a.positions, a.alphas, a.colors, a.scales, a.rotations, a.sh])], []⟩
+def binSummary (m : BinMesh) : Summary (List UInt8) (List UInt8) := ⟨[("vertex", m.verts)], m.faces.map (·.raw)⟩
+def asciiSummary (m : AsciiMesh) : Summary (List Tok) (Nat × List Tok) := ⟨[("vertex", m.verts)], m.faces⟩
+
+theorem no_placeholder_stl (hdr : List UInt8) (tris : List (List UInt8)) (hh : hdr.length = 80)
+    (ht : ∀ t ∈ tris, t.length = 50) (hn : tris.length < 2 ^ 32) (k : Nat) (m : List (List UInt8))
+    (h : readStl ((stlFile hdr tris).take k) = .ok m) :
+    prefixOf .complete (stlSummary m) (stlSummary tris) = true := by
+  rw [no_placeholder_stl_eq hdr tris hh ht hn k m h]; exact prefixOf_self_single _ _ _ _
+
+theorem no_placeholder_splat (rs : List Rec) (k : Nat) :
+    prefixOf .streamed (splatSummary (readRecs ((rs.flatMap encRec).take k)).recs) (splatSummary rs) = true := by
+  have := no_placeholder_splat_eq rs k
+  simp [prefixOf, splatSummary, List.lookup, List.isPrefixOf_iff_prefix, this]
+
+theorem no_placeholder_spz (bs : List UInt8) (h16 : 16 ≤ bs.length)
+    (hlen : bs.length = payloadLength (parseHeader (bs.take 16))) (k : Nat) (a : Arrays)
+    (h : readRaw (bs.take k) = .ok a) :
+    ∃ x, readRaw bs = .ok x ∧ prefixOf .complete (spzSummary a) (spzSummary x) = true :=
+  ⟨a, no_placeholder_spz_eq bs h16 hlen k a h, prefixOf_self_single _ _ _ _⟩
+
+theorem no_placeholder_ply_binary (L : Lex) (be : Bool) (h : Hdr) (hfmt : h.fmt = if be then .be else .le)
+    (x : BinFile) (hx : x.ok h) (k : Nat) (m : BinMesh)
+    (hm : readPly L h ((x.bytes be h).take k) = .ok (.bin m)) :
+    prefixOf .complete (binSummary m) (binSummary (x.mesh be h)) = true := by
+  have := no_placeholder_ply_binary_eq L be h hfmt x hx k _ hm
+  simp only [PlyMesh.bin.injEq] at this
+  rw [this]; exact prefixOf_self_single _ _ _ _
+
+theorem no_placeholder_ply_ascii (L : Lex) (h : Hdr) (vs fl : List Line) (hx : AsciiOk L h vs fl)
+    (j : Nat) (hj : j ≤ (vs ++ fl).length) (d : Option Line)
+    (hd : ∀ x, d = some x → ∃ hj' : j < (vs ++ fl).length, PartialOf x (vs ++ fl)[j]) (m : AsciiMesh)
+    (hm : readPlyAsciiBody L h ((vs ++ fl).take j ++ d.toList) = .ok m) :
+    prefixOf .complete (asciiSummary m) (asciiSummary (asciiMesh L h vs fl)) = true := by
+  rw [no_placeholder_ply_ascii_eq L h vs fl hx j hj d hd m hm]; exact prefixOf_self_single _ _ _ _
 
 /-- the pinned (pre-bd55314) face loop makes no progress at end of input: the state steps to itself,
     forever — the hang the property forbids.  (The repaired loop is `asciiFaces`: `[] ↦ error`.) -/
@@ -611,6 +769,26 @@ def exP : Line := ⟨[49, 32, 50, 32, 51, 32, 57, 32, 49, 48, 32, 50, 48, 32, 51
 example : PtsOk goLex 7 exC [exP] := by
   refine ⟨by decide, ?_⟩
   intro l hl; simp only [List.mem_singleton] at hl; subst hl; exact ⟨by decide, by decide, by decide⟩
+
+/-- an SPZ stream exactly as long as its header announces (version 2, one point, degree 0: 16 + 19 bytes) -/
+def exSpz : List UInt8 := Spz.encHeader ⟨Spz.magicNum, 2, 1, 0, 12, 0, 0⟩ ++ List.replicate 19 7
+
+example : 16 ≤ exSpz.length ∧ exSpz.length = payloadLength (parseHeader (exSpz.take 16)) ∧
+    (parseHeader (exSpz.take 16)).valid = true := by decide
+
+/-- writer-shaped lines: clean tokens, `mkLine` -/
+example : (∀ ts ∈ [exV.toks] ++ [exF.toks], ∀ t ∈ ts, CleanTok t) ∧
+    AsciiOk goLex exHdrAscii ([exV.toks].map mkLine) ([exF.toks].map mkLine) := by
+  refine ⟨?_, rfl, ?_, rfl, ?_⟩
+  · intro ts hts t ht
+    simp only [List.cons_append, List.nil_append, List.mem_cons, List.not_mem_nil, or_false] at hts
+    rcases hts with rfl | rfl <;>
+      (simp only [exV, exF, List.mem_cons, List.not_mem_nil, or_false] at ht
+       rcases ht with rfl | rfl | rfl | rfl <;> exact ⟨by decide, by decide⟩)
+  · intro l hl; simp only [List.map_cons, List.map_nil, List.mem_singleton] at hl; subst hl
+    exact ⟨by decide, by decide, by decide⟩
+  · intro l hl; simp only [List.map_cons, List.map_nil, List.mem_singleton] at hl; subst hl
+    refine ⟨by decide, [⟨[51], [[48], [49], [50]]⟩], rfl, ⟨by decide, by decide, trivial⟩, by decide, 3, by decide, Or.inl rfl⟩
 
 end examples
 
